@@ -51,6 +51,7 @@ def check(ctx):
     repo = ctx.repo
     docs = require_labels(EULER_LABELS)
     ctx.note("specification", {k: v[:200] for k, v in docs.items()})
+    ctx.rule("R02.8", "the psi update never writes into the arrays it is handed: a refused attempt leaves psi^n, |psi^n|^2 and mu^n as they were for the retry", 1)
     ctx.rule("R02.7", "z and w are computed from the psi, |psi|^2 and mu of *this* call: update() keeps no hidden numerical state "
                       "across calls beyond the confirmed carried-state table", 4)
     ctx.rule("R02.1", "returned |psi'|^2 equals the documented quad-root and returned psi' the documented psi-sol, with z, w from the documentation", 2)
@@ -108,6 +109,10 @@ def check(ctx):
            construct="sign of the root", loc=L, message="the '-' root of the quadratic is used",
            consequence="|psi'|^2 diverges as |z| -> 0")
     check_refusals(ctx, f, decided)
+    from ..effects import input_purity
+    input_purity(ctx, "R02.8", functions=("TDGLSolver.solve_for_psi_squared", "TDGLSolver.adaptive_euler_step"), min_functions=2,
+                 consequence="a refused attempt has already modified psi^n in place: the retry (with a smaller dt) solves the update equation "
+                             "for another state, so the answered psi' does not satisfy psi' + z|psi'|^2 = w with z, w of the true psi^n")
     from ..effects import cross_call_state
     cross_call_state(ctx, "R02.7", "when update() is handed a psi it did not produce itself (second solve() on the same solver, seed "
                                    "solution, retry after an interrupt) the remembered quantity belongs to another psi: z and w of "
